@@ -134,7 +134,8 @@ def handle_event(parser, events):
     if SamplerAction.SAMPLER_TH_INFO in e.sample_what:
         sub_events = [ev for ev in events if parser.trace_codes.get(ev.eventid, '') == 'PERF_THD_Data']
         if sub_events:
-            e.th_info = handle_thd_data(parser, sub_events)
+            # The record updated the thread map when it was seen, it is only decoded here.
+            e.th_info = parse_thd_data(sub_events)
     if SamplerAction.SAMPLER_USTACK in e.sample_what:
         sub_events = [ev for ev in events if parser.trace_codes.get(ev.eventid, '') == 'PERF_STK_UHdr']
         if sub_events:
@@ -147,12 +148,15 @@ def handle_event(parser, events):
     return e
 
 
-def handle_thd_data(parser, events):
+def parse_thd_data(events):
     args = events[0].values
-    pid = args[0]
-    tid = args[1]
-    parser.threads_pids[tid] = pid
-    return PerfThdData(events, pid, tid, args[2], to_kperf_ti_state(args[3] & 0xffff))
+    return PerfThdData(events, args[0], args[1], args[2], to_kperf_ti_state(args[3] & 0xffff))
+
+
+def handle_thd_data(parser, events):
+    thd_data = parse_thd_data(events)
+    parser.threads_pids[thd_data.tid] = thd_data.pid
+    return thd_data
 
 
 def handle_thd_cswitch(parser, events):
